@@ -256,7 +256,7 @@ func observe(w *world.World, cur wld) (obs, error) {
 		used := 0
 		for _, br := range rt.Backs {
 			g := []int{}
-			for n := 1; n <= br.S; n++ {
+			for n := 1; n <= br.S && br.S != 9; n++ { // service s9 does not exist
 				if wv, ok := sw[epAddr(rt.Ns, br.S, n)+":8080"]; ok {
 					g = append(g, wv)
 					used++
